@@ -38,6 +38,7 @@ mod sexp;
 mod util;
 mod unify;
 mod solve;
+mod infer;
 
 fn main() {
     let argv: Vec<String> = std::env::args().collect();
@@ -73,6 +74,7 @@ fn main() {
         "c02names" => nametest::main(&args),
         "unify" => unify::main(&args),
         "solve" => solve::main(&args),
+        "infer" => infer::main(&args),
         "gopp" => gopp::main(&args),
         "namecat" => namecat::main(&args),
         "probe" => probe::main(&args),
